@@ -27,6 +27,9 @@ const (
 	markEnd   = "/nonexistent-verif-dir/__VERIF_END"
 )
 
+// traceSamePID asks traceChild to start the child in a new PID namespace (set by C16 around the children of one case).
+var traceSamePID, traceSamePIDUnusable bool
+
 type traceResult struct {
 	Count  int      // fs-affecting syscalls seen between the markers
 	Killed bool     // the child was killed before syscall number k
@@ -49,12 +52,26 @@ func traceChild(k int, argv []string, env []string, dir string) traceResult {
 func traceChildLocked(k int, argv []string, env []string, dir string) (res traceResult) {
 	devnull, _ := os.OpenFile(os.DevNull, os.O_RDWR, 0)
 	defer devnull.Close()
-	pid, err := syscall.ForkExec(argv[0], argv, &syscall.ProcAttr{
+	attr := &syscall.ProcAttr{
 		Dir:   dir,
 		Files: []uintptr{devnull.Fd(), devnull.Fd(), devnull.Fd()},
 		Env:   env,
 		Sys:   &syscall.SysProcAttr{Ptrace: true},
-	})
+	}
+	var pid int
+	var err error
+	if traceSamePID && !traceSamePIDUnusable {
+		// a PID namespace of its own: the child is process 1 in it, like every other child started this way (a test
+		// binary that is always "the" process of its container)
+		attr.Sys.Cloneflags = syscall.CLONE_NEWPID
+		if pid, err = syscall.ForkExec(argv[0], argv, attr); err != nil {
+			traceSamePIDUnusable = true
+			attr.Sys.Cloneflags = 0
+		}
+	}
+	if attr.Sys.Cloneflags == 0 {
+		pid, err = syscall.ForkExec(argv[0], argv, attr)
+	}
 	if err != nil {
 		res.Err = fmt.Errorf("fork/exec under ptrace: %w", err)
 		return
